@@ -46,6 +46,25 @@ Walk(steps, k, tl, cur) ==
              THEN LET t2 == Extend(tl, cur, o) IN Walk(steps, k + 1, t2, Len(t2))
              ELSE IF ObsEq(tl[cur], o) THEN Walk(steps, k + 1, tl, cur) ELSE k
 
+\* C20 along a session: one emission per accepted top-level edit (carrying the created node), none for a refused
+\* one, and for undo / redo one emission exactly when the TIMELINE has a state to step to
+CreatesNodeJ(prev, c) == c[1] = KAddNode \/ (c[1] = KPaint /\ c[4] # 0 /\ c[4] <= N /\ prev.time[c[4]] = NoT)
+RECURSIVE WalkEmit(_, _, _, _, _)
+WalkEmit(init, steps, k, len, cur) ==
+    IF k > Len(steps) THEN 0
+    ELSE
+      LET st == steps[k]
+          prev == IF k = 1 THEN init ELSE steps[k - 1].post
+      IN IF st.c[1] = KUndo THEN
+             IF Len(st.emit) = (IF cur > 1 THEN 1 ELSE 0) THEN WalkEmit(init, steps, k + 1, len, IF cur > 1 THEN cur - 1 ELSE cur) ELSE k
+         ELSE IF st.c[1] = KRedo THEN
+             IF Len(st.emit) = (IF cur < len THEN 1 ELSE 0) THEN WalkEmit(init, steps, k + 1, len, IF cur < len THEN cur + 1 ELSE cur) ELSE k
+         ELSE IF IsSwitch(st.c) THEN (IF st.emit = <<>> THEN WalkEmit(init, steps, k + 1, len, cur) ELSE k)
+         ELSE IF st.ok
+             THEN IF Len(st.emit) = 1 /\ (CreatesNodeJ(prev, st.c) => st.emit[1] = NodeCreated(st.c))
+                  THEN LET l2 == len + (len - cur) + 1 IN WalkEmit(init, steps, k + 1, l2, l2) ELSE k
+             ELSE IF st.emit = <<>> THEN WalkEmit(init, steps, k + 1, len, cur) ELSE k
+
 \* lockstep refinement: the model keeps its own stacks; returns 0 or the first diverging step
 Dummy(k) == [j \in 1..k |-> <<>>]
 ModelOf(O) == [time |-> O.time, E |-> O.E, tid |-> O.tid, lid |-> O.lid, t2n |-> O.t2n, l2n |-> O.l2n,
@@ -95,6 +114,8 @@ Report ==
        /\ (("C02" \in Check) => (w = 0 \/ PrintT(<<"FAIL", "C02", i, w>>)))
        /\ \A name \in Check \cap {"C03", "C04", "C05", "C06", "C07", "C08", "C09"} :
              LET b == FirstBad(Rec.steps, 1, name) IN (b = 0 \/ PrintT(<<"FAIL", name, i, b>>))
+       /\ (("C20" \in Check) =>
+             LET e == WalkEmit(Rec.init, Rec.steps, 1, 1, 1) IN (e = 0 \/ PrintT(<<"FAIL", "C20", i, e>>)))
        \* C06: the queries are asked ONCE, after the last call of the session (asking re-sorts the lookup lists)
        /\ (("C06" \in Check /\ Len(Rec.steps) > 0) =>
              LET j == Rec.final
